@@ -123,7 +123,7 @@ def crosscheck_table():
 
 def expected_entries(a, event):
     perms = A.ref_permutations(a["leaves"], event)
-    sfs = Counter((name, p) for p in perms for name in A.SPINFACTOR_TABLE[a["key"]])
+    sfs = Counter((name, p) for p in perms for name in a.get("enums", A.SPINFACTOR_TABLE[a["key"]]))
     lss = Counter()
     for p in perms:
         for v in a["vertices"]:
